@@ -47,8 +47,11 @@ META = {
                "faulty unit (N <= 3): does not store the address / stores it but never answers VERIFY SHORT "
                "ADDRESS (with three units the other two may clash afterwards)",
                "units still in initialisation state (enabled or withdrawn, arbitrary random address) from an "
-               "earlier unfinished session: per unit symbolic for N <= 2, all units for N = 3"],
-    "stubs": ["isinstance/int shims", "dali.sequences._find_next replaced by its contract in (B)"],
+               "earlier unfinished session: per unit symbolic for N <= 2 (also with an empty / one-address "
+               "pool), all units for N = 3"],
+    "stubs": ["isinstance/int shims", "the recursive search helper of dali.sequences (`_find_next`; found by its "
+              "shape, not by its name) replaced by its contract in (B); the 'clash' marker is taken from the real "
+              "helper"],
     "outside": ["buses of more than 4 units", "two simultaneous answers received as one clean frame",
                 "gear that violate IEC 62386-102 other than by not storing the programmed address"],
     "assumptions": ["fairness: clashing units eventually draw different random addresses (assumed from the "
